@@ -16,6 +16,37 @@ import (
 
 func runC13(c *CaseCtx) (res CaseResult) {
 	r := caseRand(c.Seed, "C13", c.Idx)
+	if c.Idx%10 == 7 {
+		// history on one Func with a subtyped default: the error of the call
+		// that lacks the critical value lists that call's own inputs only
+		runDefaultsHistory(c, r, &res, func(sMiss *Scenario, cf *callFacts, in *Inst, o *Outcome) {
+			var hop []Label
+			for _, p := range sMiss.Target.In {
+				if hopeless(sMiss, p) {
+					hop = append(hop, p)
+				}
+			}
+			// whatever the shape: a value that was supplied to another
+			// call only is never one of this call's inputs
+			var ue *am.ErrArgumentUnsatisfied
+			if o.Err != nil && errors.As(o.Err, &ue) {
+				res.obs("history_errors_inspected", 1)
+				for _, v := range ue.Inputs {
+					id, _ := idOf(v.Value)
+					if org := in.W.Origin(id); id > 0 && org != nil && org.Kind == OInput && org.Call != -1 && org.Call != in.LastCall {
+						res.violate("C13", "inputs-list-foreign-value", fmt.Sprintf("Inputs lists %s:%v/%s = #%d, which was supplied to call %d only (this is call %d)", v.Name, v.Type, v.Subtype, id, org.Call, in.LastCall),
+							map[string]interface{}{"scenario": sMiss.String(), "err": firstLine(errStr(o.Err))})
+					}
+				}
+			}
+			if len(hop) == 0 {
+				res.obs("history_calls_without_a_hopeless_parameter", 1)
+				return
+			}
+			c13Inspector(sMiss, cf, hop, &res)(in, o)
+		})
+		return res
+	}
 	// base scenario over T0..T3 (+ interfaces), hopeless parameter over T4/T5
 	g := defaultCfg
 	g.NTypes = 4
@@ -282,12 +313,12 @@ func pickStructForm(form int, ls []Label, r *rand.Rand) int {
 func randomFilter(r *rand.Rand) (am.FilterFunc, map[int]bool) {
 	acc := map[int]bool{}
 	var fs []am.FilterFunc
-	for t := 0; t < len(types); t++ {
+	for t := 0; t < nTypes; t++ {
 		if r.Intn(3) == 0 {
 			fs = append(fs, am.FilterType(types[t]))
 			acc[t] = true
 			if isIface(t) {
-				for c := 0; c < len(types); c++ {
+				for c := 0; c < nTypes; c++ {
 					if implements(c, t) {
 						acc[c] = true
 					}
@@ -378,6 +409,9 @@ func runC06(c *CaseCtx) (res CaseResult) {
 		res.obs("odd_name_cases", 1)
 	}
 	res.Key = s.Key()
+	if usesExotic(s) {
+		res.obs("cases_over_exotic_types", 1)
+	}
 	res.NonTrivial = len(s.Convs) >= 2 || strings.HasPrefix(fam, "hostile")
 	res.obs("family."+fam, 1)
 	meter := &depthMeter{limitDepth: 8 * (len(s.Convs) + 3), limitEntries: 1000000}
@@ -417,7 +451,7 @@ func runC06(c *CaseCtx) (res CaseResult) {
 		note("call", &o)
 		checkCall(in, &o, &cf, 0, 0, &res)
 		// Convert to a random type
-		tt := r.Intn(len(types))
+		tt := r.Intn(nTypes)
 		n0 := in.W.NumEvents()
 		o2 := DoConvert(in.W, types[tt], in.AllArgs(1, r))
 		note("convert", &o2)
